@@ -274,10 +274,11 @@ structure Residual (c c' : Cfg) : Prop where
   /-- `ApplyExtends` is outside (C05 owns it; `applyExtends_order_independent` is about C02's own model of it) -/
   extendsOff : c.opts.skipExtends = true
   unicity : ∀ s, RespectsV (fun d => ofMerge s (Unicity.enforceTop d))
-  /-- only asked when validation is on (`schemaStage_off` discharges it otherwise).  NB: C01's schema model compares the
-  items of a `uniqueItems` array through `jsonKey`, which spells a mapping in *list* order (the correspondence feeds it
-  key-sorted maps, as `encoding/json` does): on arrays of mappings spelled in different orders this field is refutable
-  for the model as it is (`Neg.Whole.schema_model_reads_key_order`) — a sorted `jsonKey` is what the model needs -/
+  /-- only asked when validation is on (`schemaStage_off` discharges it otherwise).  Until round 6 C01's schema model
+  compared the items of a `uniqueItems` array through `jsonKey`, which spells a mapping in *list* order, and this field
+  was refutable for the model; the integrator replaced it by `Schema.jsonEq`, which does not read the spelling
+  (`Props/C01SchemaUnique`: `jsonEq_map_perm_left/right`, `schema_model_ignores_key_order`), so the field is provable
+  now — the proof (conformance respects `Deep.Eqv`) is still to be written -/
   schema : c.opts.skipValidation = false → RespectsV (schemaStage c.opts)
   canonical : RespectsV (fun d => ofShort (Short.canonical c.opts.skipInterpolation d))
   /-- `Normalize` with the two spellings of the environment (`normalize_stage_perm` covers the two mappings it ranges) -/
